@@ -1,6 +1,10 @@
 // Prototype translator v2: Go (subset) -> shallow Lean over Nat (uint8/int/float64-bits), Bool, List Nat.
 // Handles: consts, package tables, if/else (merge or duplicate), switch, range loops with
 // continue/break/return, multi-value returns, receiver-read hoisting.
+//
+// Two modes:
+//   gen <dir> <namespace> <import> <roots…>                       table / straight-line functions  -> Gen/V*.lean
+//   gen <dir> <namespace> <imp1,imp2> ext:<GenVxx> pfn:<f> … [fuel:N]   the parsers (see "Parser mode" below) -> Gen/P*.lean
 package main
 
 import (
@@ -39,6 +43,14 @@ type gen struct {
 	ptrParam  map[string]bool   // "receiver" is really a first *CVSSxx parameter
 	fields    []string          // object struct field names
 	panicVal  string            // current function's panic value
+	// ---- parser mode (Gen/P*.lean) ----
+	pmode   bool               // translating the parsers: checked indexing, loops with fuel, lifted loop bodies
+	ext     string             // namespace holding everything that is not a parser-mode function (GenVxx)
+	pfuncs  map[string]bool    // functions translated in parser mode
+	fuel    string             // fuel for `for { }` loops without a condition
+	subst   map[ast.Expr]string // hoisted (checked) subexpressions -> bound name
+	cur     *pfn               // parser-mode function being translated
+	pinfos  map[string]*pfn
 }
 
 func (g *gen) src(n ast.Node) string {
@@ -271,6 +283,14 @@ const poison = "(0x7FF8DEAD00000000 : Nat)"
 
 func (g *gen) expr(e ast.Expr, en *env) string {
 	e = stripParens(e)
+	if s, ok := g.subst[e]; ok {
+		return s
+	}
+	if g.pmode {
+		if s, ok := g.pexprHook(e, en); ok {
+			return s
+		}
+	}
 	if tv, ok := g.info.Types[e]; ok && tv.IsNil() {
 		return "Go.errNil"
 	}
@@ -317,6 +337,9 @@ func (g *gen) expr(e ast.Expr, en *env) string {
 			return fmt.Sprintf("(Go.Err.mk %d []) /- %s -/", c, x.Name)
 		}
 		if _, ok := g.tables[x.Name]; ok {
+			if g.pmode {
+				return g.ext + ".tbl_" + x.Name
+			}
 			g.needTable(x.Name)
 			return g.ns + ".tbl_" + x.Name
 		}
@@ -452,6 +475,9 @@ func (g *gen) expr(e ast.Expr, en *env) string {
 			case "make":
 				return "([] : List Nat)"
 			}
+			if g.pmode {
+				return "(" + g.fnRef(f.Name) + " " + strings.Join(args, " ") + ")"
+			}
 			g.need(f.Name)
 			if g.ptrParam[f.Name] {
 				// first argument is &obj: pass the callee's reads instead
@@ -464,6 +490,14 @@ func (g *gen) expr(e ast.Expr, en *env) string {
 			return "(" + g.ns + "." + leanName(f.Name) + " " + strings.Join(args, " ") + ")"
 		case *ast.SelectorExpr:
 			if id, ok := f.X.(*ast.Ident); ok {
+				if pn, ok := g.info.Uses[id].(*types.PkgName); ok && pn.Imported().Path() == "strings" {
+					switch f.Sel.Name {
+					case "HasPrefix":
+						return "(Go.hasPrefix " + args[0] + " " + args[1] + ")"
+					case "Cut":
+						return "(Go.cut " + args[0] + " " + args[1] + ")"
+					}
+				}
 				if id.Name == "math" {
 					switch f.Sel.Name {
 					case "Round":
@@ -505,6 +539,7 @@ type ctx struct {
 	ret  func(string) string
 	cont string // "" if not in loop
 	brk  string
+	pan  string // parser mode: the panic outcome at this level
 }
 
 func hasControl(ss []ast.Stmt) bool {
@@ -923,6 +958,10 @@ func (g *gen) needTable(name string) {
 func (g *gen) need(name string) {
 	if !g.done[name] {
 		g.done[name] = true
+		if g.pmode {
+			g.emitP(name)
+			return
+		}
 		saved := g.panicVal
 		d := g.emit(name)
 		g.panicVal = saved
@@ -1127,7 +1166,8 @@ func main() {
 			panic(err)
 		}
 		g := &gen{fset: fset, info: info, pkg: pkg, funcs: map[string]*ast.FuncDecl{}, recv: map[string]string{}, reads: map[string][]string{}, tables: map[string]*ast.ValueSpec{}, done: map[string]bool{}, ns: ns, readExprs: map[string]string{},
-			errVars: map[string]int{}, errTypes: map[string]int{}, mutates: map[string]bool{}, ptrParam: map[string]bool{}}
+			errVars: map[string]int{}, errTypes: map[string]int{}, mutates: map[string]bool{}, ptrParam: map[string]bool{},
+			pfuncs: map[string]bool{}, subst: map[ast.Expr]string{}, pinfos: map[string]*pfn{}}
 		// error sentinels, typed errors, object fields (deterministic numbering by sorted name)
 		var evs, ets []string
 		scope := pkg.Scope()
@@ -1184,6 +1224,8 @@ func main() {
 								if prev != nil {
 									g.funcs[x.Name.Name] = prev
 								}
+								// methods of other types are only reachable in parser mode, as "Type.Method"
+								g.funcs[id.Name+"."+x.Name.Name] = x
 								continue
 							}
 						}
@@ -1231,6 +1273,20 @@ func main() {
 		var facts []string
 		for _, r := range roots {
 			switch {
+			case strings.HasPrefix(r, "ext:"):
+				g.pmode, g.ext = true, r[4:]
+			case strings.HasPrefix(r, "fuel:"):
+				g.fuel = r[5:]
+			case strings.HasPrefix(r, "pfn:"):
+				g.pmode = true
+				g.pfuncs[r[4:]] = true
+			}
+		}
+		for _, r := range roots {
+			switch {
+			case strings.HasPrefix(r, "ext:"), strings.HasPrefix(r, "fuel:"):
+			case strings.HasPrefix(r, "pfn:"):
+				g.need(r[4:])
 			case strings.HasPrefix(r, "tbl:"):
 				g.needTable(r[4:])
 			case strings.HasPrefix(r, "const:"):
@@ -1286,6 +1342,17 @@ func main() {
 			}
 		}
 		g.defsOut = append(g.defsOut, facts...)
+		if g.pmode {
+			for _, i := range strings.Split(imp, ",") {
+				fmt.Printf("import %s\n", i)
+			}
+			fmt.Printf("set_option linter.unusedVariables false\n/-! GENERATED from %s (parser mode) — do not edit -/\nnamespace %s\n\n", dir, ns)
+			for _, d := range g.defsOut {
+				fmt.Println(d)
+			}
+			fmt.Printf("end %s\n", ns)
+			continue
+		}
 		g.defsOut = append(g.defsOut, stateFacts(fset, files, info, pkg)...)
 		fmt.Printf("import %s\nset_option linter.unusedVariables false\nset_option maxRecDepth 100000\n/-! GENERATED from %s — do not edit -/\nnamespace %s\n\n", imp, dir, ns)
 		for _, d := range g.defsOut {
@@ -1397,4 +1464,1226 @@ func stateFacts(fset *token.FileSet, files []*ast.File, info *types.Info, pkg *t
 		"/-- function:variable.method for every method call on a package-level variable; function:go for goroutine starts -/\ndef pkg_calls : List String :=\n  " + lst(calls) + "\n",
 		"/-- function:unsafe.X for every use of package unsafe -/\ndef pkg_unsafe : List String :=\n  " + lst(unsafes) + "\n",
 	}
+}
+
+// =====================================================================================================
+// Parser mode (Gen/P*.lean): ParseVector, split, splitCouple, kvm.Set.
+//
+// Differences from the table/straight-line mode above:
+//   * every partial operation (s[i], s[a:b], table[i], *p, stores) is CHECKED: it is hoisted in front of
+//     the statement that evaluates it, as `Go.index s i PANIC fun t => …` (continuation style), so an
+//     out-of-range access yields the function's panic outcome; short-circuit operators whose right operand
+//     is partial become an `Option Bool` computation so that the right operand is only evaluated when Go does;
+//   * functions return `Go.Res fields` ((*CVSSxx, error): ok / err / panic) or `Option results` (none = panic);
+//     a pointer receiver / slice parameter that is written through is passed in and returned (state passing);
+//   * `for init; cond; post` loops run on `Go.forN` with fuel derived from the loop bound, `for { }` on the
+//     fuel given by the `fuel:` option; running out of fuel is the panic outcome;
+//   * loop bodies are lifted to named definitions `<fn>_for<k>` / `<fn>_range<k>` whose parameters are the
+//     variables the body reads, so that proofs can state lemmas about one iteration;
+//   * a struct of bools is the `List Bool` of its fields, a `*bool` into it is `Option Nat` (field index);
+//   * `x := <sync.Pool>.Get()` binds the extra first parameter `buf`, `defer <pool>.Put(x)` is dropped.
+// Anything else aborts with file:line.
+// =====================================================================================================
+
+type pfn struct {
+	name    string
+	lname   string
+	fd      *ast.FuncDecl
+	kind    string // "res" or "opt"
+	resT    string
+	pan     string
+	recvVar string
+	mutated []string // receiver / slice parameters returned in front of the results
+	mutIdx  []int    // parameter index of each (-1: receiver)
+	objVar  string
+	poolVar string
+	poolT   string
+	ptrBase map[string]string
+	varT    map[string]string
+	declPos map[string]token.Pos
+	tmpN    int
+	loopN   int
+	lifted  []string
+	loops   map[ast.Node]string
+}
+
+func (g *gen) boolStruct(t types.Type) (*types.Struct, bool) {
+	if p, ok := t.(*types.Pointer); ok {
+		t = p.Elem()
+	}
+	n, ok := t.(*types.Named)
+	if !ok {
+		return nil, false
+	}
+	st, ok := n.Underlying().(*types.Struct)
+	if !ok || st.NumFields() == 0 {
+		return nil, false
+	}
+	for i := 0; i < st.NumFields(); i++ {
+		b, ok := st.Field(i).Type().Underlying().(*types.Basic)
+		if !ok || b.Info()&types.IsBoolean == 0 {
+			return nil, false
+		}
+	}
+	return st, true
+}
+
+func isObjPtr(t types.Type) bool {
+	p, ok := t.(*types.Pointer)
+	if !ok {
+		return false
+	}
+	n, ok := p.Elem().(*types.Named)
+	if !ok || !strings.HasPrefix(n.Obj().Name(), "CVSS") {
+		return false
+	}
+	_, ok = n.Underlying().(*types.Struct)
+	return ok
+}
+
+func isBoolPtr(t types.Type) bool {
+	p, ok := t.(*types.Pointer)
+	if !ok {
+		return false
+	}
+	b, ok := p.Elem().Underlying().(*types.Basic)
+	return ok && b.Info()&types.IsBoolean != 0
+}
+
+func (g *gen) pLeanType(t types.Type) string {
+	if _, ok := g.boolStruct(t); ok {
+		return "(List Bool)"
+	}
+	if isBoolPtr(t) {
+		return "(Option Nat)"
+	}
+	return leanType(t)
+}
+
+func (g *gen) isPool(e ast.Expr) bool {
+	id, ok := e.(*ast.Ident)
+	if !ok {
+		return false
+	}
+	v, ok := g.info.Uses[id].(*types.Var)
+	if !ok || v.Parent() != g.pkg.Scope() {
+		return false
+	}
+	n, ok := v.Type().(*types.Named)
+	return ok && n.Obj().Pkg() != nil && n.Obj().Pkg().Path() == "sync" && n.Obj().Name() == "Pool"
+}
+
+// poolCall recognises <pool>.Get() / <pool>.Put(x)
+func (g *gen) poolCall(e ast.Expr) string {
+	call, ok := stripParens(e).(*ast.CallExpr)
+	if !ok {
+		return ""
+	}
+	sel, ok := call.Fun.(*ast.SelectorExpr)
+	if !ok || !g.isPool(sel.X) {
+		return ""
+	}
+	return sel.Sel.Name
+}
+
+func tupleT(ts []string) string {
+	switch len(ts) {
+	case 0:
+		return "Unit"
+	case 1:
+		return ts[0]
+	}
+	return "(" + strings.Join(ts, " × ") + ")"
+}
+
+func mkTuple(vs []string) string {
+	switch len(vs) {
+	case 0:
+		return "()"
+	case 1:
+		return vs[0]
+	}
+	return "(" + strings.Join(vs, ", ") + ")"
+}
+
+func pLeanFn(name string) string { return leanName(strings.ReplaceAll(name, ".", "_")) }
+
+// pinfo analyses a parser-mode function once.
+func (g *gen) pinfo(name string) *pfn {
+	if f, ok := g.pinfos[name]; ok {
+		return f
+	}
+	fd := g.funcs[name]
+	if fd == nil {
+		fmt.Fprintf(os.Stderr, "unknown function %s\n", name)
+		os.Exit(2)
+	}
+	f := &pfn{name: name, lname: pLeanFn(name), fd: fd, ptrBase: map[string]string{}, varT: map[string]string{}, declPos: map[string]token.Pos{}, loops: map[ast.Node]string{}}
+	g.pinfos[name] = f
+	sig := g.info.Defs[fd.Name].Type().(*types.Signature)
+	res := sig.Results()
+	// locals
+	anyVars := map[string]bool{}
+	ast.Inspect(fd, func(n ast.Node) bool {
+		id, ok := n.(*ast.Ident)
+		if !ok {
+			return true
+		}
+		v, ok := g.info.Defs[id].(*types.Var)
+		if !ok || v.IsField() || id.Name == "_" {
+			return true
+		}
+		if isObjPtr(v.Type()) {
+			if f.objVar != "" {
+				g.die(id, "second object variable %s", id.Name)
+			}
+			f.objVar = id.Name
+			f.declPos[id.Name] = id.Pos()
+			return true
+		}
+		t := g.pLeanType(v.Type())
+		if _, isIface := v.Type().Underlying().(*types.Interface); isIface && !isErrorType(v.Type()) {
+			anyVars[id.Name] = true
+			t = ""
+		}
+		if old, ok := f.varT[id.Name]; ok && old != t {
+			g.die(id, "variable %s declared twice with different types", id.Name)
+		}
+		if _, ok := g.boolStruct(v.Type()); ok {
+			if _, dup := f.declPos[id.Name]; dup {
+				g.die(id, "struct variable %s declared twice", id.Name)
+			}
+		}
+		f.varT[id.Name] = t
+		if _, ok := f.declPos[id.Name]; !ok {
+			f.declPos[id.Name] = id.Pos()
+		}
+		return true
+	})
+	ast.Inspect(fd.Body, func(n ast.Node) bool {
+		switch x := n.(type) {
+		case *ast.TypeAssertExpr:
+			if id, ok := x.X.(*ast.Ident); ok && anyVars[id.Name] && x.Type != nil {
+				f.varT[id.Name] = g.pLeanType(g.info.Types[x.Type].Type)
+			}
+		case *ast.AssignStmt:
+			if len(x.Lhs) == 1 && len(x.Rhs) == 1 {
+				if id, ok := x.Lhs[0].(*ast.Ident); ok {
+					if u, ok := stripParens(x.Rhs[0]).(*ast.UnaryExpr); ok && u.Op == token.AND {
+						if sel, ok := u.X.(*ast.SelectorExpr); ok {
+							if b, ok := sel.X.(*ast.Ident); ok {
+								if old, ok := f.ptrBase[id.Name]; ok && old != b.Name {
+									g.die(x, "pointer %s into two structs", id.Name)
+								}
+								f.ptrBase[id.Name] = b.Name
+							}
+						}
+					}
+					if g.poolCall(x.Rhs[0]) == "Get" {
+						f.poolVar = id.Name
+					}
+				}
+			}
+		}
+		return true
+	})
+	for n := range anyVars {
+		if f.varT[n] == "" {
+			g.die(fd, "no type assertion found for interface variable %s", n)
+		}
+	}
+	if f.poolVar != "" {
+		f.poolT = f.varT[f.poolVar]
+		if _, clash := f.varT["buf"]; clash {
+			g.die(fd, "local named buf clashes with the pool parameter")
+		}
+	}
+	for n := range f.varT {
+		if len(n) > 1 && (n[0] == 't' || n[0] == 'c') && strings.Trim(n[1:], "0123456789") == "" {
+			g.die(fd, "local %s clashes with generated temporaries", n)
+		}
+	}
+	// receiver
+	var mutT []string
+	if fd.Recv != nil {
+		rv := fd.Recv.List[0]
+		rt := g.info.Types[rv.Type].Type
+		if _, ok := g.boolStruct(rt); !ok || len(rv.Names) != 1 {
+			g.die(fd, "receiver of %s", name)
+		}
+		if _, isPtr := rt.(*types.Pointer); isPtr {
+			f.recvVar = rv.Names[0].Name
+			f.mutated = append(f.mutated, f.recvVar)
+			f.mutIdx = append(f.mutIdx, -1)
+			mutT = append(mutT, "(List Bool)")
+		} else {
+			g.die(fd, "value receiver of %s", name)
+		}
+	}
+	// slice parameters written through
+	written := map[string]bool{}
+	ast.Inspect(fd.Body, func(n ast.Node) bool {
+		if as, ok := n.(*ast.AssignStmt); ok {
+			for _, l := range as.Lhs {
+				if ix, ok := l.(*ast.IndexExpr); ok {
+					if id, ok := ix.X.(*ast.Ident); ok {
+						written[id.Name] = true
+					}
+				}
+			}
+		}
+		return true
+	})
+	pi := 0
+	for _, fl := range fd.Type.Params.List {
+		for _, n := range fl.Names {
+			if _, isSlice := g.info.Defs[n].Type().Underlying().(*types.Slice); isSlice && written[n.Name] {
+				f.mutated = append(f.mutated, n.Name)
+				f.mutIdx = append(f.mutIdx, pi)
+				mutT = append(mutT, f.varT[n.Name])
+			}
+			pi++
+		}
+	}
+	// result type
+	if res.Len() == 2 && isObjPtr(res.At(0).Type()) && isErrorType(res.At(1).Type()) {
+		if len(f.mutated) > 0 {
+			g.die(fd, "constructor with in-out parameters")
+		}
+		f.kind = "res"
+		var ts []string
+		for range g.fields {
+			ts = append(ts, "Nat")
+		}
+		f.resT = "(Go.Res " + tupleT(ts) + ")"
+		f.pan = "Go.Res.panic"
+	} else {
+		f.kind = "opt"
+		ts := append([]string{}, mutT...)
+		for i := 0; i < res.Len(); i++ {
+			if res.At(i).Name() != "" {
+				g.die(fd, "named results")
+			}
+			ts = append(ts, g.pLeanType(res.At(i).Type()))
+		}
+		f.resT = "(Option " + tupleT(ts) + ")"
+		f.pan = "none"
+	}
+	return f
+}
+
+func (g *gen) fnRef(name string) string {
+	if g.pfuncs[name] {
+		g.need(name)
+		return g.ns + "." + pLeanFn(name)
+	}
+	if g.funcs[name] == nil || g.ptrParam[name] || g.recv[name] != "" {
+		fmt.Fprintf(os.Stderr, "parser mode: cannot reference function %s\n", name)
+		os.Exit(2)
+	}
+	return g.ext + "." + leanName(name)
+}
+
+func (g *gen) tmp(pfx string) string {
+	n := fmt.Sprintf("%s%d", pfx, g.cur.tmpN)
+	g.cur.tmpN++
+	return n
+}
+
+// structVar: identifier denoting a local struct-of-bools (value or pointer receiver)
+func (g *gen) structVar(e ast.Expr) (string, *types.Struct, bool) {
+	id, ok := stripParens(e).(*ast.Ident)
+	if !ok {
+		return "", nil, false
+	}
+	v, ok := g.info.Uses[id].(*types.Var)
+	if !ok || v.Parent() == g.pkg.Scope() {
+		return "", nil, false
+	}
+	st, ok := g.boolStruct(v.Type())
+	return id.Name, st, ok
+}
+
+func fieldIdx(st *types.Struct, name string) int {
+	for i := 0; i < st.NumFields(); i++ {
+		if st.Field(i).Name() == name {
+			return i
+		}
+	}
+	return -1
+}
+
+// methodKey: "Type.Method" for a method call on a local struct-of-bools variable
+func (g *gen) structMethod(call *ast.CallExpr) (recv string, key string, ok bool) {
+	sel, isSel := call.Fun.(*ast.SelectorExpr)
+	if !isSel {
+		return "", "", false
+	}
+	name, _, isSt := g.structVar(sel.X)
+	if !isSt {
+		return "", "", false
+	}
+	t := g.typeOf(sel.X)
+	if p, isP := t.(*types.Pointer); isP {
+		t = p.Elem()
+	}
+	return name, t.(*types.Named).Obj().Name() + "." + sel.Sel.Name, true
+}
+
+func (g *gen) objMethod(call *ast.CallExpr) (string, bool) {
+	sel, ok := call.Fun.(*ast.SelectorExpr)
+	if !ok {
+		return "", false
+	}
+	id, ok := sel.X.(*ast.Ident)
+	if !ok || g.cur == nil || g.cur.objVar == "" || id.Name != g.cur.objVar {
+		return "", false
+	}
+	return sel.Sel.Name, true
+}
+
+// pexprHook: parser-mode expression forms (pure ones; partial ones are hoisted before `expr` sees them)
+func (g *gen) pexprHook(e ast.Expr, en *env) (string, bool) {
+	switch x := e.(type) {
+	case *ast.SelectorExpr:
+		if name, st, ok := g.structVar(x.X); ok {
+			k := fieldIdx(st, x.Sel.Name)
+			if k < 0 {
+				g.die(e, "field %s", x.Sel.Name)
+			}
+			return fmt.Sprintf("(Go.idx %s (%d : Nat)) /- %s.%s -/", leanName(name), k, name, x.Sel.Name), true
+		}
+	case *ast.UnaryExpr:
+		if x.Op == token.AND {
+			if sel, ok := x.X.(*ast.SelectorExpr); ok {
+				if name, st, ok := g.structVar(sel.X); ok {
+					k := fieldIdx(st, sel.Sel.Name)
+					return fmt.Sprintf("(some (%d : Nat)) /- &%s.%s -/", k, name, sel.Sel.Name), true
+				}
+			}
+		}
+	case *ast.TypeAssertExpr:
+		return g.expr(x.X, en), true
+	case *ast.IndexExpr, *ast.SliceExpr, *ast.StarExpr:
+		g.die(e, "internal: partial expression %s was not hoisted", g.src(e))
+	case *ast.Ident:
+		if g.cur != nil && x.Name == g.cur.objVar {
+			g.die(e, "object pointer %s used as a value", x.Name)
+		}
+	case *ast.CallExpr:
+		if id, ok := x.Fun.(*ast.Ident); ok && g.pfuncs[id.Name] {
+			g.die(e, "call of %s inside an expression", id.Name)
+		}
+		if _, ok := g.objMethod(x); ok {
+			g.die(e, "object method call inside an expression")
+		}
+		if _, _, ok := g.structMethod(x); ok {
+			g.die(e, "struct method call inside an expression")
+		}
+	}
+	return "", false
+}
+
+func (g *gen) isPartial(e ast.Expr) bool {
+	found := false
+	ast.Inspect(e, func(n ast.Node) bool {
+		switch x := n.(type) {
+		case *ast.IndexExpr, *ast.SliceExpr:
+			found = true
+		case *ast.StarExpr:
+			if tv, ok := g.info.Types[x.X]; ok && isBoolPtr(tv.Type) {
+				found = true
+			}
+		case *ast.FuncLit:
+			return false
+		}
+		return !found
+	})
+	return found
+}
+
+// effectCall: a call that must be translated as a statement (rebinds variables or may panic)
+func (g *gen) effectCall(e ast.Expr) (*ast.CallExpr, bool) {
+	call, ok := stripParens(e).(*ast.CallExpr)
+	if !ok {
+		return nil, false
+	}
+	if id, ok := call.Fun.(*ast.Ident); ok && g.pfuncs[id.Name] {
+		return call, true
+	}
+	if _, ok := g.objMethod(call); ok {
+		return call, true
+	}
+	if _, _, ok := g.structMethod(call); ok {
+		return call, true
+	}
+	if g.poolCall(call) != "" {
+		return call, true
+	}
+	return call, false
+}
+
+// stmtsEffect: the statements contain something merge-mode `if` cannot carry (checked operation, effect call, loop)
+func (g *gen) stmtsEffect(ss []ast.Stmt) bool {
+	found := false
+	for _, s := range ss {
+		ast.Inspect(s, func(n ast.Node) bool {
+			switch x := n.(type) {
+			case *ast.RangeStmt, *ast.ForStmt:
+				found = true
+			case ast.Expr:
+				if _, ok := g.effectCall(x); ok || g.isPartial(x) {
+					found = true
+				}
+			case *ast.AssignStmt:
+				for _, l := range x.Lhs {
+					switch l.(type) {
+					case *ast.IndexExpr, *ast.StarExpr:
+						found = true
+					}
+				}
+			}
+			return !found
+		})
+	}
+	return found
+}
+
+// hoist emits the checked operations of e (in evaluation order) as a prefix and records the bound names.
+func (g *gen) hoist(e ast.Expr, en *env, pan, ind string) string {
+	if e == nil {
+		return ""
+	}
+	e = stripParens(e)
+	if !g.isPartial(e) {
+		return ""
+	}
+	switch x := e.(type) {
+	case *ast.IndexExpr:
+		p := g.hoist(x.X, en, pan, ind) + g.hoist(x.Index, en, pan, ind)
+		a, i := g.expr(x.X, en), g.expr(x.Index, en)
+		t := g.tmp("t")
+		g.subst[e] = t
+		return p + fmt.Sprintf("Go.index %s %s (%s) fun %s =>\n%s", a, i, pan, t, ind)
+	case *ast.SliceExpr:
+		if x.Slice3 {
+			g.die(e, "3-index slice")
+		}
+		p := g.hoist(x.X, en, pan, ind) + g.hoist(x.Low, en, pan, ind) + g.hoist(x.High, en, pan, ind)
+		a := g.expr(x.X, en)
+		t := g.tmp("t")
+		var out string
+		switch {
+		case x.Low != nil && x.High != nil:
+			out = fmt.Sprintf("Go.slice %s %s %s (%s) fun %s =>\n%s", a, g.expr(x.Low, en), g.expr(x.High, en), pan, t, ind)
+		case x.Low != nil:
+			out = fmt.Sprintf("Go.sliceFrom %s %s (%s) fun %s =>\n%s", a, g.expr(x.Low, en), pan, t, ind)
+		case x.High != nil:
+			out = fmt.Sprintf("Go.sliceTo %s %s (%s) fun %s =>\n%s", a, g.expr(x.High, en), pan, t, ind)
+		default:
+			g.die(e, "s[:]")
+		}
+		g.subst[e] = t
+		return p + out
+	case *ast.StarExpr:
+		id, ok := x.X.(*ast.Ident)
+		if !ok || g.cur.ptrBase[id.Name] == "" {
+			g.die(e, "dereference %s", g.src(e))
+		}
+		t := g.tmp("t")
+		g.subst[e] = t
+		return fmt.Sprintf("Go.load %s %s (%s) fun %s =>\n%s", leanName(g.cur.ptrBase[id.Name]), leanName(id.Name), pan, t, ind)
+	case *ast.BinaryExpr:
+		if (x.Op == token.LAND || x.Op == token.LOR) && g.isPartial(x.Y) {
+			p := g.hoist(x.X, en, pan, ind)
+			a := g.expr(x.X, en)
+			inner := g.hoist(x.Y, en, "none", ind+"    ") + "some " + g.expr(x.Y, en)
+			c := g.tmp("c")
+			g.subst[e] = c
+			if x.Op == token.LOR {
+				return p + fmt.Sprintf("match (cond %s (some true)\n%s    (%s) : Option Bool) with\n%s| none => %s\n%s| some %s =>\n%s", a, ind, inner, ind, pan, ind, c, ind)
+			}
+			return p + fmt.Sprintf("match (cond %s\n%s    (%s)\n%s    (some false) : Option Bool) with\n%s| none => %s\n%s| some %s =>\n%s", a, ind, inner, ind, ind, pan, ind, c, ind)
+		}
+		return g.hoist(x.X, en, pan, ind) + g.hoist(x.Y, en, pan, ind)
+	case *ast.UnaryExpr:
+		return g.hoist(x.X, en, pan, ind)
+	case *ast.CallExpr:
+		p := ""
+		for _, a := range x.Args {
+			p += g.hoist(a, en, pan, ind)
+		}
+		return p
+	case *ast.CompositeLit:
+		p := ""
+		for _, el := range x.Elts {
+			if kv, ok := el.(*ast.KeyValueExpr); ok {
+				p += g.hoist(kv.Value, en, pan, ind)
+			} else {
+				p += g.hoist(el, en, pan, ind)
+			}
+		}
+		return p
+	case *ast.TypeAssertExpr:
+		return g.hoist(x.X, en, pan, ind)
+	}
+	g.die(e, "checked operation inside %s (%T)", g.src(e), e)
+	return ""
+}
+
+func (g *gen) fieldNames() []string { return append([]string{}, g.fields...) }
+
+// pCall translates a statement-level call and binds `lhs` (the Go left-hand side names) plus whatever the
+// callee writes through (object fields, receiver struct, in-out slice).
+func (g *gen) pCall(call *ast.CallExpr, lhs []string, en *env, c ctx, ind string) string {
+	pre := ""
+	for _, a := range call.Args {
+		pre += g.hoist(a, en, c.pan, ind)
+	}
+	var args []string
+	for _, a := range call.Args {
+		args = append(args, g.expr(a, en))
+	}
+	for i, l := range lhs {
+		if l != "_" {
+			lhs[i] = leanName(l)
+		}
+	}
+	if g.poolCall(call) == "Get" {
+		if len(lhs) != 1 {
+			g.die(call, "pool Get")
+		}
+		return pre + fmt.Sprintf("let %s := buf /- %s: the pooled buffer is the extra parameter -/\n%s", lhs[0], g.src(call), ind)
+	}
+	if id, ok := call.Fun.(*ast.Ident); ok && g.pfuncs[id.Name] {
+		pi := g.pinfo(id.Name)
+		var pat []string
+		for _, k := range pi.mutIdx {
+			a, ok := stripParens(call.Args[k]).(*ast.Ident)
+			if !ok {
+				g.die(call, "in-out argument must be a variable")
+			}
+			pat = append(pat, leanName(a.Name))
+		}
+		pat = append(pat, lhs...)
+		return pre + fmt.Sprintf("match (%s %s) with\n%s| none => %s\n%s| some %s =>\n%s", g.fnRef(id.Name), strings.Join(args, " "), ind, c.pan, ind, mkTuple(pat), ind)
+	}
+	if m, ok := g.objMethod(call); ok {
+		if !g.mutates[m] {
+			g.die(call, "object method %s", m)
+		}
+		fs := g.fieldNames()
+		return pre + fmt.Sprintf("match (%s.%s %s) with\n%s| %s =>\n%s", g.ext, leanName(m), strings.Join(append(fs, args...), " "), ind, mkTuple(append(fs, lhs...)), ind)
+	}
+	if rv, key, ok := g.structMethod(call); ok {
+		if !g.pfuncs[key] {
+			g.die(call, "method %s is not translated", key)
+		}
+		pi := g.pinfo(key)
+		if pi.recvVar == "" {
+			g.die(call, "method %s", key)
+		}
+		pat := append([]string{leanName(rv)}, lhs...)
+		return pre + fmt.Sprintf("match (%s %s) with\n%s| none => %s\n%s| some %s =>\n%s", g.fnRef(key), strings.Join(append([]string{leanName(rv)}, args...), " "), ind, c.pan, ind, mkTuple(pat), ind)
+	}
+	// pure multi-value call (strings.Cut, external functions)
+	if len(lhs) == 0 {
+		g.die(call, "call statement %s", g.src(call))
+	}
+	return pre + fmt.Sprintf("match %s with\n%s| %s =>\n%s", g.expr(call, en), ind, mkTuple(lhs), ind)
+}
+
+// pAssigned: variables declared outside `scope` that the nodes assign (fields of the object included),
+// in first-assignment order.
+func (g *gen) pAssigned(nodes []ast.Node, scope ast.Node) []string {
+	f := g.cur
+	var res []string
+	seen := map[string]bool{}
+	outside := func(p token.Pos) bool { return p < scope.Pos() || p >= scope.End() }
+	add := func(n string) {
+		if !seen[n] {
+			seen[n] = true
+			res = append(res, n)
+		}
+	}
+	addIdent := func(e ast.Expr) {
+		id, ok := stripParens(e).(*ast.Ident)
+		if !ok || id.Name == "_" {
+			return
+		}
+		if id.Name == f.objVar {
+			if outside(f.declPos[f.objVar]) {
+				for _, fl := range g.fields {
+					add(fl)
+				}
+			}
+			return
+		}
+		if v, ok := g.info.Uses[id].(*types.Var); ok && outside(v.Pos()) {
+			add(id.Name)
+		}
+	}
+	for _, nd := range nodes {
+		if nd == nil {
+			continue
+		}
+		ast.Inspect(nd, func(n ast.Node) bool {
+			switch x := n.(type) {
+			case *ast.AssignStmt:
+				for _, l := range x.Lhs {
+					switch lv := l.(type) {
+					case *ast.Ident:
+						addIdent(lv)
+					case *ast.IndexExpr:
+						addIdent(lv.X)
+					case *ast.StarExpr:
+						if id, ok := lv.X.(*ast.Ident); ok {
+							if b := f.ptrBase[id.Name]; b != "" && outside(f.declPos[b]) {
+								add(b)
+							}
+						}
+					default:
+						g.die(l, "assignment target %s", g.src(l))
+					}
+				}
+			case *ast.IncDecStmt:
+				addIdent(x.X)
+			case *ast.CallExpr:
+				if id, ok := x.Fun.(*ast.Ident); ok && g.pfuncs[id.Name] {
+					for _, k := range g.pinfo(id.Name).mutIdx {
+						addIdent(x.Args[k])
+					}
+				}
+				if m, ok := g.objMethod(x); ok && g.mutates[m] {
+					addIdent(x.Fun.(*ast.SelectorExpr).X)
+				}
+				if _, key, ok := g.structMethod(x); ok && g.pfuncs[key] {
+					addIdent(x.Fun.(*ast.SelectorExpr).X)
+				}
+			}
+			return true
+		})
+	}
+	return res
+}
+
+func (g *gen) varType(n string) string {
+	for _, fl := range g.fields {
+		if fl == n {
+			return "Nat"
+		}
+	}
+	t, ok := g.cur.varT[n]
+	if !ok || t == "" {
+		fmt.Fprintf(os.Stderr, "parser mode: no type for variable %s in %s\n", n, g.cur.name)
+		os.Exit(2)
+	}
+	return t
+}
+
+// freeVars: local variables (declared outside `scope`) that `scope` mentions, by declaration position,
+// without those in `except`.
+func (g *gen) freeVars(body ast.Node, scope ast.Node, except []string) []string {
+	f := g.cur
+	ex := map[string]bool{}
+	for _, e := range except {
+		ex[e] = true
+	}
+	type fv struct {
+		n string
+		p token.Pos
+	}
+	var vs []fv
+	seen := map[string]bool{}
+	outside := func(p token.Pos) bool { return p < scope.Pos() || p >= scope.End() }
+	ast.Inspect(body, func(n ast.Node) bool {
+		id, ok := n.(*ast.Ident)
+		if !ok {
+			return true
+		}
+		v, ok := g.info.Uses[id].(*types.Var)
+		if !ok || v.IsField() || v.Parent() == g.pkg.Scope() || v.Parent() == types.Universe || !outside(v.Pos()) {
+			return true
+		}
+		if id.Name == f.objVar {
+			for i, fl := range g.fields {
+				if !seen[fl] && !ex[fl] {
+					seen[fl] = true
+					vs = append(vs, fv{fl, v.Pos() + token.Pos(0)})
+					_ = i
+				}
+			}
+			return true
+		}
+		if !seen[id.Name] && !ex[id.Name] {
+			seen[id.Name] = true
+			vs = append(vs, fv{id.Name, v.Pos()})
+		}
+		return true
+	})
+	sort.SliceStable(vs, func(i, j int) bool { return vs[i].p < vs[j].p })
+	var out []string
+	for _, v := range vs {
+		out = append(out, v.n)
+	}
+	return out
+}
+
+// loopName numbers the loops of a function in source order
+func (g *gen) loopName(kind string, node ast.Node) string {
+	f := g.cur
+	f.loopN++
+	name := fmt.Sprintf("%s_%s%d", f.lname, kind, f.loopN)
+	f.loops[node] = name
+	return name
+}
+
+func (g *gen) lift(name string, node ast.Node, free []string, extra string, vars []string, body string) {
+	f := g.cur
+	var ps, ts []string
+	for _, v := range free {
+		ps = append(ps, fmt.Sprintf("(%s : %s)", leanName(v), g.varType(v)))
+	}
+	if extra != "" {
+		ps = append(ps, extra)
+	}
+	for _, v := range vars {
+		ts = append(ts, g.varType(v))
+	}
+	stT := tupleT(ts)
+	d := fmt.Sprintf("/-- %s: body of the loop at %s -/\ndef %s %s : %s → Go.Ctl %s %s\n  | %s =>\n    %s\n",
+		f.name, g.fset.Position(node.Pos()), name, strings.Join(ps, " "), stT, stT, f.resT, tuple(vars), body)
+	f.lifted = append(f.lifted, d)
+}
+
+func leanNames(vs []string) []string {
+	var r []string
+	for _, v := range vs {
+		r = append(r, leanName(v))
+	}
+	return r
+}
+
+func (g *gen) pstmts(ss []ast.Stmt, en *env, c ctx, ind string) string {
+	if len(ss) == 0 {
+		return c.fall
+	}
+	f := g.cur
+	s, rest := ss[0], ss[1:]
+	next := func() string { return g.pstmts(rest, en, c, ind) }
+	switch x := s.(type) {
+	case *ast.ReturnStmt:
+		if f.kind == "res" {
+			if len(x.Results) != 2 {
+				g.die(s, "return")
+			}
+			r0, r1 := stripParens(x.Results[0]), stripParens(x.Results[1])
+			if g.info.Types[r0].IsNil() {
+				pre := g.hoist(r1, en, c.pan, ind)
+				return pre + c.ret("Go.Res.err "+g.expr(r1, en))
+			}
+			if id, ok := r0.(*ast.Ident); ok && id.Name == f.objVar && g.info.Types[r1].IsNil() {
+				return c.ret("Go.Res.ok " + mkTuple(g.fieldNames()))
+			}
+			g.die(s, "return %s", g.src(s))
+		}
+		pre := ""
+		vals := leanNames(f.mutated)
+		for _, r := range x.Results {
+			pre += g.hoist(r, en, c.pan, ind)
+		}
+		for _, r := range x.Results {
+			vals = append(vals, g.expr(r, en))
+		}
+		return pre + c.ret("some "+mkTuple(vals))
+	case *ast.BranchStmt:
+		if x.Label == nil && x.Tok == token.CONTINUE && c.cont != "" {
+			return c.cont
+		}
+		if x.Label == nil && x.Tok == token.BREAK && c.brk != "" {
+			return c.brk
+		}
+	case *ast.DeferStmt:
+		if g.poolCall(x.Call) == "Put" {
+			return fmt.Sprintf("/- %s: dropped (the buffer goes back to the pool) -/\n%s%s", g.src(s), ind, next())
+		}
+	case *ast.ExprStmt:
+		if call, ok := g.effectCall(x.X); ok {
+			return g.pCall(call, nil, en, c, ind) + next()
+		}
+	case *ast.DeclStmt:
+		gd := x.Decl.(*ast.GenDecl)
+		out := ""
+		for _, sp := range gd.Specs {
+			vs, ok := sp.(*ast.ValueSpec)
+			if !ok {
+				g.die(s, "declaration")
+			}
+			for i, n := range vs.Names {
+				t := g.info.Defs[n].Type()
+				val := zeroOf(t)
+				if isBoolPtr(t) {
+					val = "none /- nil -/"
+				}
+				if len(vs.Values) > i {
+					out += g.hoist(vs.Values[i], en, c.pan, ind)
+					val = g.expr(vs.Values[i], en)
+				}
+				out += fmt.Sprintf("let %s : %s := %s\n%s", leanName(n.Name), g.pLeanType(t), val, ind)
+			}
+		}
+		return out + next()
+	case *ast.IncDecStmt:
+		id, ok := x.X.(*ast.Ident)
+		if !ok || x.Tok != token.INC || !isNatLike(g.typeOf(x.X)) || g.isFloat(x.X) || g.isUint8(x.X) {
+			g.die(s, "statement %s", g.src(s))
+		}
+		return fmt.Sprintf("let %s := (Nat.add %s (1 : Nat))\n%s%s", leanName(id.Name), leanName(id.Name), ind, next())
+	case *ast.AssignStmt:
+		if len(x.Rhs) == 1 {
+			if call, ok := g.effectCall(x.Rhs[0]); ok || (call != nil && len(x.Lhs) > 1) {
+				var lhs []string
+				for _, l := range x.Lhs {
+					id, ok := l.(*ast.Ident)
+					if !ok {
+						g.die(s, "assignment target %s", g.src(l))
+					}
+					lhs = append(lhs, id.Name)
+				}
+				return g.pCall(call, lhs, en, c, ind) + next()
+			}
+		}
+		if len(x.Lhs) == 1 && len(x.Rhs) == 1 {
+			rhsE := stripParens(x.Rhs[0])
+			switch l := x.Lhs[0].(type) {
+			case *ast.Ident:
+				// &CVSSxx{...}: the object is its fields
+				if u, ok := rhsE.(*ast.UnaryExpr); ok && u.Op == token.AND && l.Name == f.objVar {
+					cl, ok := u.X.(*ast.CompositeLit)
+					if !ok || x.Tok != token.DEFINE {
+						g.die(s, "object allocation %s", g.src(s))
+					}
+					vals := map[string]string{}
+					pre := ""
+					for _, el := range cl.Elts {
+						kv, ok := el.(*ast.KeyValueExpr)
+						if !ok {
+							g.die(s, "positional object literal")
+						}
+						pre += g.hoist(kv.Value, en, c.pan, ind)
+						vals[kv.Key.(*ast.Ident).Name] = g.expr(kv.Value, en)
+					}
+					out := pre
+					for _, fl := range g.fields {
+						v, ok := vals[fl]
+						if !ok {
+							v = "(0 : Nat)"
+						}
+						out += fmt.Sprintf("let %s := %s\n%s", fl, v, ind)
+					}
+					return out + next()
+				}
+				if cl, ok := rhsE.(*ast.CompositeLit); ok {
+					if st, ok := g.boolStruct(g.typeOf(cl)); ok {
+						if len(cl.Elts) != 0 {
+							g.die(s, "struct literal with fields")
+						}
+						var fs []string
+						for i := 0; i < st.NumFields(); i++ {
+							fs = append(fs, "false")
+						}
+						return fmt.Sprintf("let %s : List Bool := [%s]\n%s%s", leanName(l.Name), strings.Join(fs, ", "), ind, next())
+					}
+				}
+				pre := g.hoist(rhsE, en, c.pan, ind)
+				rhs := g.expr(rhsE, en)
+				switch x.Tok {
+				case token.DEFINE, token.ASSIGN:
+				case token.ADD_ASSIGN:
+					if !isNatLike(g.typeOf(l)) || g.isFloat(l) || g.isUint8(l) {
+						g.die(s, "+= on %s", g.src(l))
+					}
+					rhs = fmt.Sprintf("(Nat.add %s %s)", leanName(l.Name), rhs)
+				default:
+					g.die(s, "assignment operator %s", x.Tok)
+				}
+				return pre + fmt.Sprintf("let %s := %s\n%s%s", leanName(l.Name), rhs, ind, next())
+			case *ast.IndexExpr:
+				id, ok := l.X.(*ast.Ident)
+				if !ok || x.Tok != token.ASSIGN {
+					g.die(s, "assignment target %s", g.src(l))
+				}
+				pre := g.hoist(l.Index, en, c.pan, ind) + g.hoist(rhsE, en, c.pan, ind)
+				return pre + fmt.Sprintf("Go.setIndex %s %s %s (%s) fun %s =>\n%s%s", leanName(id.Name), g.expr(l.Index, en), g.expr(rhsE, en), c.pan, leanName(id.Name), ind, next())
+			case *ast.StarExpr:
+				id, ok := l.X.(*ast.Ident)
+				if !ok || x.Tok != token.ASSIGN || f.ptrBase[id.Name] == "" {
+					g.die(s, "assignment target %s", g.src(l))
+				}
+				b := leanName(f.ptrBase[id.Name])
+				pre := g.hoist(rhsE, en, c.pan, ind)
+				return pre + fmt.Sprintf("Go.store %s %s %s (%s) fun %s =>\n%s%s", b, leanName(id.Name), g.expr(rhsE, en), c.pan, b, ind, next())
+			}
+			g.die(s, "assignment target %s", g.src(x.Lhs[0]))
+		}
+		if len(x.Lhs) == len(x.Rhs) && x.Tok == token.DEFINE {
+			out := ""
+			for i := range x.Lhs {
+				id, ok := x.Lhs[i].(*ast.Ident)
+				if !ok {
+					g.die(s, "assignment target")
+				}
+				out += g.hoist(x.Rhs[i], en, c.pan, ind)
+				out += fmt.Sprintf("let %s := %s\n%s", leanName(id.Name), g.expr(x.Rhs[i], en), ind)
+			}
+			// fresh names: sequential binding is equivalent as long as no right side mentions an earlier left side
+			for i := range x.Lhs {
+				for j := i + 1; j < len(x.Rhs); j++ {
+					nm := x.Lhs[i].(*ast.Ident).Name
+					ast.Inspect(x.Rhs[j], func(n ast.Node) bool {
+						if id, ok := n.(*ast.Ident); ok && id.Name == nm {
+							g.die(s, "parallel assignment")
+						}
+						return true
+					})
+				}
+			}
+			return out + next()
+		}
+	case *ast.IfStmt:
+		if x.Init != nil {
+			cp := *x
+			cp.Init = nil
+			return g.pstmts(append([]ast.Stmt{x.Init, &cp}, rest...), en, c, ind)
+		}
+		thenS := x.Body.List
+		var elseS []ast.Stmt
+		if x.Else != nil {
+			if b, ok := x.Else.(*ast.BlockStmt); ok {
+				elseS = b.List
+			} else {
+				elseS = []ast.Stmt{x.Else}
+			}
+		}
+		pre := g.hoist(x.Cond, en, c.pan, ind)
+		cnd := g.expr(x.Cond, en)
+		if hasControl(thenS) || hasControl(elseS) || g.stmtsEffect(thenS) || g.stmtsEffect(elseS) {
+			var t string
+			if terminates(thenS) {
+				t = g.pstmts(thenS, en, c, ind+"  ")
+			} else {
+				t = g.pstmts(append(append([]ast.Stmt{}, thenS...), rest...), en, c, ind+"  ")
+			}
+			var e string
+			if terminates(elseS) {
+				e = g.pstmts(elseS, en, c, ind+"  ")
+			} else {
+				e = g.pstmts(append(append([]ast.Stmt{}, elseS...), rest...), en, c, ind+"  ")
+			}
+			return pre + fmt.Sprintf("cond %s\n%s  (%s)\n%s  (%s)", cnd, ind, t, ind, e)
+		}
+		var nodes []ast.Node
+		for _, st := range thenS {
+			nodes = append(nodes, st)
+		}
+		for _, st := range elseS {
+			nodes = append(nodes, st)
+		}
+		vars := g.pAssigned(nodes, x)
+		bc := ctx{fall: tuple(vars), ret: c.ret, cont: c.cont, brk: c.brk, pan: c.pan}
+		t := g.pstmts(thenS, en, bc, ind+"  ")
+		e := g.pstmts(elseS, en, bc, ind+"  ")
+		return pre + fmt.Sprintf("match (cond %s\n%s  (%s)\n%s  (%s)) with\n%s| %s =>\n%s%s", cnd, ind, t, ind, e, ind, tuple(vars), ind, next())
+	case *ast.SwitchStmt:
+		if x.Init != nil || x.Tag == nil {
+			g.die(s, "switch form")
+		}
+		pre := g.hoist(x.Tag, en, c.pan, ind)
+		tag := g.expr(x.Tag, en)
+		var def []ast.Stmt
+		out, closeP := "", ""
+		for _, cl := range x.Body.List {
+			cc := cl.(*ast.CaseClause)
+			if cc.List == nil {
+				def = cc.Body
+				continue
+			}
+			var cs []string
+			for _, e := range cc.List {
+				if g.isPartial(e) || g.isFloat(x.Tag) {
+					g.die(s, "switch case %s", g.src(e))
+				}
+				if g.isString(x.Tag) {
+					cs = append(cs, fmt.Sprintf("(Go.strEq %s %s)", tag, g.expr(e, en)))
+				} else {
+					cs = append(cs, fmt.Sprintf("(Nat.beq %s %s)", tag, g.expr(e, en)))
+				}
+			}
+			for _, st := range cc.Body {
+				if b, ok := st.(*ast.BranchStmt); ok && (b.Tok == token.BREAK || b.Tok == token.FALLTHROUGH) {
+					g.die(st, "break/fallthrough inside switch")
+				}
+			}
+			var b string
+			if terminates(cc.Body) {
+				b = g.pstmts(cc.Body, en, c, ind+"  ")
+			} else {
+				b = g.pstmts(append(append([]ast.Stmt{}, cc.Body...), rest...), en, c, ind+"  ")
+			}
+			out += fmt.Sprintf("cond (%s)\n%s  (%s)\n%s (", strings.Join(cs, " || "), ind, b, ind)
+			closeP += ")"
+		}
+		var tail []ast.Stmt
+		if terminates(def) {
+			tail = def
+		} else {
+			tail = append(append([]ast.Stmt{}, def...), rest...)
+		}
+		return pre + out + g.pstmts(tail, en, c, ind+"  ") + closeP
+	case *ast.RangeStmt:
+		if x.Key != nil {
+			if id, ok := x.Key.(*ast.Ident); !ok || id.Name != "_" {
+				g.die(s, "range with key")
+			}
+		}
+		vid, ok := x.Value.(*ast.Ident)
+		if !ok || x.Tok != token.DEFINE {
+			g.die(s, "range value")
+		}
+		pre := g.hoist(x.X, en, c.pan, ind)
+		xs := g.expr(x.X, en)
+		vars := g.pAssigned([]ast.Node{x.Body}, x)
+		st := tuple(vars)
+		free := g.freeVars(x.Body, x, vars)
+		name, done := f.loops[x]
+		if !done {
+			name = g.loopName("range", x)
+			bc := ctx{fall: "Go.Ctl.next " + st, ret: func(r string) string { return "Go.Ctl.ret (" + r + ")" }, cont: "Go.Ctl.next " + st, brk: "Go.Ctl.brk " + st, pan: "Go.Ctl.ret " + f.pan}
+			body := g.pstmts(x.Body.List, en, bc, "    ")
+			g.lift(name, x, free, fmt.Sprintf("(%s : %s)", leanName(vid.Name), g.varType(vid.Name)), vars, body)
+		}
+		after := next()
+		return pre + fmt.Sprintf("match Go.forRange %s %s (%s.%s %s) with\n%s| Go.Ctl.ret r => %s\n%s| Go.Ctl.brk %s => %s\n%s| Go.Ctl.next %s =>\n%s%s",
+			xs, st, g.ns, name, strings.Join(leanNames(free), " "), ind, c.ret("r"), ind, st, c.pan, ind, st, ind, after)
+	case *ast.ForStmt:
+		pre := ""
+		initVar := ""
+		if x.Init != nil {
+			as, ok := x.Init.(*ast.AssignStmt)
+			if !ok || as.Tok != token.DEFINE || len(as.Lhs) != 1 || len(as.Rhs) != 1 || g.isPartial(as.Rhs[0]) {
+				g.die(s, "for init %s", g.src(x.Init))
+			}
+			initVar = as.Lhs[0].(*ast.Ident).Name
+			pre += fmt.Sprintf("let %s := %s\n%s", leanName(initVar), g.expr(as.Rhs[0], en), ind)
+		}
+		var vars []string
+		if initVar != "" {
+			vars = append(vars, initVar)
+		}
+		bodyVars := g.pAssigned([]ast.Node{x.Body}, x)
+		for _, v := range g.pAssigned([]ast.Node{x.Body, x.Post}, x) {
+			if v != initVar {
+				vars = append(vars, v)
+			}
+		}
+		st := tuple(vars)
+		inVars := func(n string) bool {
+			for _, v := range vars {
+				if v == n {
+					return true
+				}
+			}
+			return false
+		}
+		cndF, fuel := "fun _ => true", ""
+		if x.Cond == nil {
+			if g.fuel == "" {
+				g.die(s, "`for` without condition needs the fuel: option")
+			}
+			fuel = fmt.Sprintf("(%s : Nat) /- fuel of an unconditional for: translator option -/", g.fuel)
+		} else {
+			if g.isPartial(x.Cond) {
+				g.die(s, "checked operation in loop condition")
+			}
+			be, ok := stripParens(x.Cond).(*ast.BinaryExpr)
+			if !ok || (be.Op != token.LSS && be.Op != token.LEQ) {
+				g.die(s, "loop condition %s (want v < bound or v <= bound)", g.src(x.Cond))
+			}
+			v, ok := stripParens(be.X).(*ast.Ident)
+			inc, ok2 := x.Post.(*ast.IncDecStmt)
+			if !ok || !ok2 || inc.Tok != token.INC || g.src(inc.X) != v.Name || !inVars(v.Name) {
+				g.die(s, "loop must count %s up by one", g.src(be.X))
+			}
+			for _, bv := range bodyVars {
+				if bv == v.Name {
+					g.die(s, "loop variable %s assigned in the body", v.Name)
+				}
+			}
+			ast.Inspect(be.Y, func(n ast.Node) bool {
+				if id, ok := n.(*ast.Ident); ok && inVars(id.Name) {
+					g.die(s, "loop bound %s changes in the loop", g.src(be.Y))
+				}
+				return true
+			})
+			// at most bound+1 iterations and one failing test
+			fuel = fmt.Sprintf("(Nat.add %s (2 : Nat))", g.expr(be.Y, en))
+			cndF = fmt.Sprintf("fun %s => %s", st, g.expr(x.Cond, en))
+		}
+		postF := "fun st => st"
+		if x.Post != nil {
+			pc := ctx{fall: st, ret: c.ret, pan: c.pan}
+			postF = fmt.Sprintf("fun %s => %s", st, strings.ReplaceAll(g.pstmts([]ast.Stmt{x.Post}, en, pc, " "), "\n", ";"))
+		}
+		except := append([]string{}, vars...)
+		free := g.freeVars(x.Body, x, except)
+		name, done := f.loops[x]
+		if !done {
+			name = g.loopName("for", x)
+			bc := ctx{fall: "Go.Ctl.next " + st, ret: func(r string) string { return "Go.Ctl.ret (" + r + ")" }, cont: "Go.Ctl.next " + st, brk: "Go.Ctl.brk " + st, pan: "Go.Ctl.ret " + f.pan}
+			body := g.pstmts(x.Body.List, en, bc, "    ")
+			g.lift(name, x, free, "", vars, body)
+		}
+		after := next()
+		return pre + fmt.Sprintf("match Go.forN %s %s\n%s    (%s)\n%s    (%s)\n%s    (%s.%s %s) with\n%s| Go.Loop.ret r => %s\n%s| Go.Loop.fuel => %s\n%s| Go.Loop.done %s =>\n%s%s",
+			fuel, st, ind, cndF, ind, postF, ind, g.ns, name, strings.Join(leanNames(free), " "), ind, c.ret("r"), ind, c.pan, ind, st, ind, after)
+	}
+	g.die(s, "statement %s", g.src(s))
+	return ""
+}
+
+func (g *gen) emitP(name string) {
+	f := g.pinfo(name)
+	saved := g.cur
+	g.cur = f
+	defer func() { g.cur = saved }()
+	fd := f.fd
+	en := &env{name: name, recv: "", params: map[string]string{}}
+	var ps []string
+	if f.poolVar != "" {
+		ps = append(ps, fmt.Sprintf("(buf : %s)", f.poolT))
+	}
+	if f.recvVar != "" {
+		ps = append(ps, fmt.Sprintf("(%s : (List Bool))", leanName(f.recvVar)))
+	}
+	for _, fl := range fd.Type.Params.List {
+		for _, n := range fl.Names {
+			ps = append(ps, fmt.Sprintf("(%s : %s)", leanName(n.Name), g.varType(n.Name)))
+		}
+	}
+	c := ctx{ret: func(r string) string { return r }, fall: f.pan, pan: f.pan}
+	body := g.pstmts(fd.Body.List, en, c, "  ")
+	doc := fmt.Sprintf("/-- %s  (%s)", name, g.fset.Position(fd.Pos()))
+	if f.kind == "res" {
+		doc += "\n    result: `Go.Res.ok fields` = `return obj, nil`; `Go.Res.err e` = `return nil, e`; `Go.Res.panic`"
+	} else {
+		var parts []string
+		parts = append(parts, f.mutated...)
+		doc += "\n    result: `none` = panic; `some (" + strings.Join(append(parts, "results…"), ", ") + ")`"
+	}
+	if f.poolVar != "" {
+		doc += "\n    `buf` is what the sync.Pool hands out (stale content of earlier calls)"
+	}
+	doc += " -/\n"
+	g.defsOut = append(g.defsOut, f.lifted...)
+	g.defsOut = append(g.defsOut, doc+"def "+f.lname+" "+strings.Join(ps, " ")+" : "+f.resT+" :=\n  "+body+"\n")
 }
